@@ -9,7 +9,7 @@ from . import c01
 
 ID = "C10"
 BUDGET = {"quick": 1200, "thorough": 150000}
-RULE = ("scenario = scheduler with 1-5 jobs of all types/limits, n_threads in {0,1,3}, default or user logger, fault pattern per "
+RULE = ("scenario = scheduler with 1-5 jobs of all types/limits, n_threads in {0,1,3}, default or user logger (whose handler is attached before or, in 30%, only after the scheduler is constructed), fault pattern per "
         "poll (always / first only / alternating / random subset; any position in the batch) with exception classes Exception, "
         "ValueError, a user subclass, SchedulerError, StopIteration, queue.Empty, KeyError, and instances that are falsy (__bool__ False, "
         "__len__ 0) or whose str()/repr() raise; each scenario is run twice on the real "
@@ -29,6 +29,7 @@ def scenarios(rng, n, tier):
         scn = scen.gen_life(rng, opts)
         scn["n_threads"] = rng.choice([0, 1, 1, 3])
         scn["user_logger"] = rng.random() < 0.5
+        scn["late_handler"] = scn["user_logger"] and rng.random() < 0.3   # handler attached after construction
         nj = sum(1 for o in scn["ops"] if o["op"] == "sch")
         pattern = rng.choice(["always", "first", "alternate", "random"])
         culprits = sorted(rng.sample(range(nj), rng.randint(1, nj)))
@@ -143,6 +144,6 @@ def nontrivial(r):
 from .. import aiomix  # noqa: E402
 from . import c17 as _c17  # noqa: E402
 
-aiomix.install(globals(), 0.25, lambda rng: aiomix.stream(rng, _c17.scenarios, tweak=lambda rng_, s: dict(s, _no_solo=True)), aiomix.c10_specs,
+aiomix.install(globals(), 0.25, lambda rng: aiomix.stream(rng, _c17.scenarios, tweak=lambda rng_, s: dict(s, _no_solo=True, late_handler=rng_.random() < 0.3)), aiomix.c10_specs,
                aio_runner=aiomix.c10_runner,
                note="C17-style job lives with raising runs (20%), each also run fault-free; Spec: no supervising task dies, failed_attempts = raising runs, attempts = completed runs, one ERROR record per failure, the two runs agree on everything else")
